@@ -5,7 +5,8 @@ proof:          coq/Props/C19.v (model coq/Amp/Convert.v: structured content sha
 correspondence: models/DtoKpipipi_v2.txt, sub-models of it and generated four-body files with parameters, converted by
                 ampgen2goofit / ampgen2goofitpy; both texts parsed into content (event type, mass constants, resonance
                 variables, parameter declarations, amplitudes) and compared with the model and with each other.
-executed only:  symbols declared before use in each text; the Python text executed against a recording stand-in for the
+proved + tied:  symbols declared before use (Amp/Symbols.v vs symstruct() of both texts);
+executed only:  the Python text executed against a recording stand-in for the
                 goofit module; string-returning mode vs captured stdout; command-line entry point.
 """
 from __future__ import annotations
@@ -114,6 +115,63 @@ def def_before_use(txt, cpp):
     return sorted(set(missing))
 
 
+def symstruct(txt, cpp):
+    """the model symbols each section of a generated text declares and uses (the structure of coq/Amp/Symbols.v):
+    [consts (sorted), resvars (sorted), particle_masses uses, parameter declarations (in order), arrays sorted [[name, sorted elements]],
+     per amplitude per lineshape the symbols used (in order), sections-in-order flag]"""
+    hdr, intro, pars, body = split_blocks(txt, cpp)
+    consts, resvars, masses = [], [], []
+    for l in intro:
+        m = re.match(r"\s*constexpr fptype (\w+)\s*\{", l) if cpp else re.match(r"(\w+)\s+= (?![A-Za-z(\[])", l)
+        if m:
+            consts.append(m.group(1))
+            continue
+        m = re.match(r"\s*Variable (\w+)\s*\{", l) if cpp else re.match(r"(\w+)\s+= Variable\(", l)
+        if m:
+            resvars.append(m.group(1))
+            continue
+        m = re.search(r"particle_masses = [{(](.*)[})]", l)
+        if m:
+            masses = [x.strip() for x in m.group(1).split(",") if x.strip()]
+    ptxt = "\n".join(pars)
+    decl_rx = r"^\s*Variable (\w+) \{" if cpp else r"^(\w+) = Variable\("
+    arr_rx = r"std::vector<Variable>\s+(\w+)\s*\{\{(.*?)\}\};" if cpp else r"^(\w+) =\s+\[\s*\n(.*?)\]"
+    decls = [(m.start(), m.group(1)) for m in re.finditer(decl_rx, ptxt, re.M)]
+    arrs = [(m.start(), m.group(1), [x.strip() for x in m.group(2).split(",") if x.strip()]) for m in re.finditer(arr_rx, ptxt, re.S | re.M)]
+    in_order = all(d[0] < a[0] for d in decls for a in arrs)
+    # nothing is declared outside the two declaration sections
+    btxt = "\n".join(body)
+    if re.search(decl_rx, btxt, re.M) or re.search(arr_rx, btxt, re.S | re.M) or re.search(r"constexpr fptype", btxt):
+        in_order = False
+    blocks, cur = [], None
+    for l in body:
+        if re.match(r"\s*(//|#) Line \d+", l):
+            if cur is not None:
+                blocks.append("\n".join(cur))
+            cur = []
+        elif cur is not None:
+            cur.append(l)
+    if cur is not None:
+        blocks.append("\n".join(cur))
+    amps = []
+    for b in blocks:
+        starts = list(c18.LSTART.finditer(b))
+        end_all = b.index("amplitudes_list") if "amplitudes_list" in b else len(b)
+        uses = []
+        for si, m in enumerate(starts):
+            args = b[m.end():(starts[si + 1].start() if si + 1 < len(starts) else end_all)]
+            if m.group(1) == "kMatrix":
+                args = args.split(",", 2)[2]                                   # pterm and the pole flag are literals
+            args = re.sub(r'"[^"]*"', "", args)
+            args = re.sub(r"\b\w+(?:::\w+)+(?:\([^)]*\))?", "", args)          # FF::BL2, Lineshapes::FOCUS::Mod::x, Lineshapes::spline_t(...)
+            args = re.sub(r"\b\w+(?:\.\w+)+", "", args)                        # FF.BL2, Lineshapes.FocusMod.x, 1.5
+            syms = [x for x in re.findall(r"\b[A-Za-z_]\w*\b", args)
+                    if x not in ("new", "true", "false", "True", "False") and not re.fullmatch(r"M_\d+(_\d+)?", x)]
+            uses.append(syms)
+        amps.append(uses)
+    return [sorted(consts), sorted(resvars), masses, [d[1] for d in decls], sorted([a[1], sorted(a[2])] for a in arrs), amps, in_order]
+
+
 def prog_name(n):
     from particle.particle.utilities import programmatic_name
     try:
@@ -197,6 +255,11 @@ def impl_main(mode, fin, fout):
                 p = subprocess.run([sys.executable, "-m", "decaylanguage", "-G", gen, c["path"]], capture_output=True, text=True)
                 if p.returncode != 0 or c20.canon_text(p.stdout) != c20.canon_text(ret):
                     viol.append("command-line entry point output differs (" + gen + ")")
+        for lang, txt, iscpp in (("cpp", cpp, True), ("py", py, False)):
+            try:
+                res[lang + "_sym"] = symstruct(txt, iscpp)
+            except Exception as e:  # noqa: BLE001
+                res[lang + "_sym"] = {"err": type(e).__name__}
         res["missing_cpp"] = def_before_use(cpp, True)
         res["missing_py"] = def_before_use(py, False)
         ok, msg = exec_python(py)
@@ -233,8 +296,10 @@ def main():
     ck.proofs("Props/C19.v", extra_trusted=[
         "text <-> structure: py/c19.py parses both generated texts into content; the 8-significant-digit number formatting is CPython's "
         "(values compared to 1e-7 relative)",
-        "executed, not proved: declaration-before-use on the emitted texts, execution of the Python output against a recording stand-in "
-        "for the goofit module, returned-string vs printed text, command-line entry point; the spline / f_scatt / IS_poles arrays",
+        "declaration before use: coq/Amp/Symbols.v (hand-written) is compared with the symbol structure py/c19.py symstruct() extracts from both "
+        "texts (regular expressions over the generated code); def_before_use() additionally scans each text directly",
+        "executed, not proved: order of the members inside the spline / f_scatt / IS_poles arrays, execution of the Python output against a "
+        "recording stand-in for the goofit module, returned-string vs printed text, command-line entry point",
         "hand-written model coq/Amp/Convert.v (+ Amp/GooFit.v, Amp/Read.v) tied by correspondence; front end / particle lookup as C17"])
     d = vlib.BUILD / "c19"
     d.mkdir(parents=True, exist_ok=True)
@@ -303,6 +368,14 @@ Definition info (p : Z) : option pinfo := zlookup p amp_particles.
     model = vlib.run_model("C19", ["Lib.PyDict", "Gen.GenAmp", "Amp.Syntax", "Amp.Read", "Amp.Perm", "Amp.GooFit", "Amp.Session", "Amp.Convert"],
                            "fun v : val => v", terms, shard=4, preamble=pre)
 
+    sterms = [f"vsymout (symbols pid_of info known_spinfactors 40 false {ampgen_gen.coq_optfile(c['opt'])})" for c in cases]
+    smodel = vlib.run_model("C19s", ["Lib.PyDict", "Gen.GenAmp", "Amp.Syntax", "Amp.Read", "Amp.Perm", "Amp.GooFit", "Amp.Session", "Amp.Convert",
+                                     "Amp.Symbols"], "fun v : val => v", sterms, shard=4, preamble=pre)
+
+    def sym_canon(mv):
+        consts, resvars, masses, parsd, arrs, amps = mv
+        return [sorted(consts), sorted(resvars), masses, parsd, sorted([a[0], sorted(a[1])] for a in arrs), amps]
+
     def qf(v):
         return None if v is None else float(Fraction(v["q"][0], v["q"][1]))
 
@@ -361,6 +434,17 @@ Definition info (p : Z) : option pinfo := zlookup p amp_particles.
                 diffs.append(i)
                 ck.notes.setdefault("content_mismatch", []).append([c["path"], lang, why])
                 break
+        # the symbol structure of each text (what is declared where, what every lineshape uses) against coq/Amp/Symbols.v
+        sm = smodel[i]
+        for lang in ("cpp", "py"):
+            isym = iv.get(lang + "_sym")
+            if isinstance(sm, dict) or isinstance(isym, dict) or isym is None or isym[:6] != sym_canon(sm):
+                if i not in diffs:
+                    diffs.append(i)
+                ck.notes.setdefault("content_mismatch", []).append([c["path"], lang, "symbol structure (declarations / uses per section)"])
+                break
+            if not isym[6]:
+                hits.append((c["path"], "a declaration section of the " + lang + " output is out of order (parameters after arrays, or a declaration among the amplitudes)"))
         # direct statements of the property on the implementation's texts
         a, b = iv["cpp"], iv["py"]
         same = (a["event"] == b["event"] and [x[0] for x in a["massconsts"]] == [x[0] for x in b["massconsts"]]
